@@ -84,20 +84,21 @@ ATOMIC = {"batch_remove", "batch_replace", "batch_insert_into", "batch_insert"}
 # neither repaired in /repo nor recorded yet.  While a name is listed here its oracle is off (or
 # the workload does not generate the triggering input), so that ./check C05 stays green; remove
 # the name to enforce it.  VERIF_C05_ENFORCE=name,name|all enforces them for one experiment.
-PENDING = frozenset({
-    "earliest-multi-spill",            # several items inserted mid-circuit with EARLIEST land after ops that followed the point
-    "moment-eq-qubitless-order",       # Moment ==/hash depend on the order of operations that act on no qubits
-    "moment-eq-symmetric-gate-order",  # Moment(CZ(c,a)) != Moment(CZ(a,c)) although the operations are equal
-    "batch-remove-equal-ops",          # batch_remove/batch_replace act on every equal operation of the moment
-    "batch-insert-negative-index",     # batch_insert adds the running shift to raw negative indices
-    "concat-ragged-key-order",         # concat_ragged slides a controlled op in front of its measurement
-    "prev-moment-past-end",            # prev_moment_operating_on(end > len) searches too few moments
-    "control-keys-intra-moment-order", # cirq.control_keys(circuit) depends on the order inside a moment
-    "factorize-drops-qubitless",       # factorize() loses operations that act on no qubits
-    "parameter-names-by-reference",    # parameter_names(circuit) hands out the cached mutable set
-    "transform-qubits-drops-tags",     # Circuit.transform_qubits drops the circuit's tags
-    "slice-qubits-one-shot-iterable",  # circuit[:, generator] consumes the generator at the first moment
-    "setitem-numpy-int-skips-type-check",  # circuit[np.int64(i)] = op stores an Operation as a moment
+PENDING = frozenset()      # every oracle below is enforced: the defects are repaired in /repo or recorded (DESIGN 8.2)
+_ALL_NAMES = frozenset({
+    "earliest-multi-spill",            # (recorded) several items inserted mid-circuit with EARLIEST land after ops that followed the point
+    "moment-eq-qubitless-order",       # (fixed) Moment ==/hash depend on the order of operations that act on no qubits
+    "moment-eq-symmetric-gate-order",  # (fixed) Moment(CZ(c,a)) != Moment(CZ(a,c)) although the operations are equal
+    "batch-remove-equal-ops",          # (fixed) batch_remove/batch_replace act on every equal operation of the moment
+    "batch-insert-negative-index",     # (fixed) batch_insert adds the running shift to raw negative indices
+    "concat-ragged-key-order",         # (recorded) concat_ragged slides a controlled op in front of its measurement
+    "prev-moment-past-end",            # (fixed) prev_moment_operating_on(end > len) searches too few moments
+    "control-keys-intra-moment-order", # (recorded) cirq.control_keys(circuit) depends on the order inside a moment
+    "factorize-drops-qubitless",       # (recorded) factorize() loses operations that act on no qubits
+    "parameter-names-by-reference",    # (fixed) parameter_names(circuit) hands out the cached mutable set
+    "transform-qubits-drops-tags",     # (fixed) Circuit.transform_qubits drops the circuit's tags
+    "slice-qubits-one-shot-iterable",  # (fixed) circuit[:, generator] consumes the generator at the first moment
+    "setitem-numpy-int-skips-type-check",  # (fixed) circuit[np.int64(i)] = op stores an Operation as a moment
 })
 _enf = os.environ.get("VERIF_C05_ENFORCE", "")
 if _enf:
@@ -300,7 +301,7 @@ class Run:
         method, fault = self.cur if who is None else self.pool[who].last
         base = cls.split(":")[0]
         if fp is None and self.pending_fp is not None and who is None:
-            fp = f"{base}@pending:{self.pending_fp}"
+            fp = f"{base}:{self.pending_fp}"
         if fp is None:
             fp = f"{base}@{fault}:{method}"
         if fault == "iter-raises" and base == "C05-STALE":
@@ -631,9 +632,9 @@ class Run:
                     fp = None
                     if sum(1 for o in m.operations if not o.qubits) >= 2 and \
                             cirq.Moment([o for o in m.operations if o.qubits]) == cirq.Moment([o for o in rm.operations if o.qubits]):
-                        fp = "C05-HASH@pending:moment-eq-qubitless-order"
+                        fp = "C05-HASH:moment-eq-qubitless-order"
                     elif any(o.untagged.gate == cirq.CZ for o in m.operations) and m == cirq.Moment(list(reversed(m.operations))):
-                        fp = "C05-HASH@pending:moment-eq-symmetric-gate-order"
+                        fp = "C05-HASH:moment-eq-symmetric-gate-order"
                     self.flag("C05-HASH", f"circuit {i} moment {j}: {m!r} and the Moment holding the same operations "
                                           f"in reverse order: == is {m == rm}, equal hashes is {hash(m) == hash(rm)}",
                               fp, who=i)
@@ -677,10 +678,11 @@ class Run:
                                   f"operations in reverse order: (c==ref, ref==c, frozen==, frozen== reversed, equal "
                                   f"hashes, one element in a set, dict lookup) = {facts}", who=i)
             return False
-        if not pending("control-keys-intra-moment-order") and cirq.control_keys(clone) != cirq.control_keys(ref):
+        if (not pending("control-keys-intra-moment-order") and self.tape.chance(1, 8, "judge-control-keys-order?")
+                and cirq.control_keys(clone) != cirq.control_keys(ref)):
             self.flag("C05-QUERY", f"circuit {i} ({M.show(lv.m)}): cirq.control_keys() = {_short(cirq.control_keys(clone))} "
                                    f"but {_short(cirq.control_keys(ref))} for the equal circuit whose moments list the "
-                                   f"operations in reverse order", "C05-QUERY@pending:control-keys-intra-moment-order", who=i)
+                                   f"operations in reverse order", "C05-QUERY:control-keys-intra-moment-order", who=i)
             return False
         # next / previous moment, against the model
         Lm = lv.m
@@ -699,7 +701,7 @@ class Run:
                 if got1 != max(occ, default=None):
                     self.flag("C05-QUERY", f"circuit {i} ({M.show(Lm)}): prev_moment_operating_on(q{qi}, {far}) = {got1} "
                                            f"with {n} moments; the operations on q{qi} are in moments {occ}",
-                              "C05-QUERY@pending:prev-moment-past-end", who=i)
+                              "C05-QUERY:prev-moment-past-end", who=i)
                     return False
         if self.do_factor:
             if not self.factor_oracle(i, clone):
@@ -781,7 +783,9 @@ class Run:
             return False
         factors = list(c.factorize())
         lays = [self.decode(f) for f in factors]
-        loose_q0 = pending("factorize-drops-qubitless")
+        # (a recorded finding, DESIGN 8.2: judged in one factorize check out of eight, so that the runs it would
+        # otherwise end keep exercising the other oracles)
+        loose_q0 = pending("factorize-drops-qubitless") or not self.tape.chance(1, 8, "judge-qubitless-in-factors?")
         Lq = [[o for o in m if o.qubits] for m in L]
         if loose_q0:
             # (operations on no qubits belong to no independent set and are dropped today)
@@ -811,7 +815,7 @@ class Run:
         if problem is not None:
             fp = None
             if not loose_q0 and factors and sorted(u for lay in lays for m in lay for o in m if o.qubits for u in [o.uid]) == M.uids_of(Lq):
-                fp = "C05-FACTORIZE@pending:factorize-drops-qubitless"
+                fp = "C05-FACTORIZE:factorize-drops-qubitless"
             self.flag("C05-FACTORIZE", f"circuit {i} ({M.show(L)}).factorize() -> {[M.show(x) for x in lays]}: {problem}",
                       fp, who=i)
             return False
@@ -886,7 +890,7 @@ class Run:
                     pn.discard("zzz")
                     self.flag("C05-STALE:parameter_names", f"circuit {i}: editing the set returned by "
                               f"cirq.parameter_names(circuit) changes what the next call returns",
-                              "C05-STALE@pending:parameter-names-by-reference")
+                              "C05-STALE:parameter-names-by-reference")
         if mask & 32:
             got["all_measurement_key_objs"] = c.all_measurement_key_objs()
             got["control_keys"] = cirq.control_keys(c)
@@ -1018,7 +1022,7 @@ class Run:
                 fp = None
                 if not probs and not pending("earliest-multi-spill"):
                     probs = M.check_insert_multi(L, N, index, items, strategy, ret, exempt=False)
-                    fp = "C05-ORDER@pending:earliest-multi-spill"
+                    fp = "C05-ORDER:earliest-multi-spill"
                 if probs:
                     cls, msg = probs[0]
                     self.flag(cls, f"{strategy} insert of [{self.desc_items(items)}] at {k} into {M.show(L)} gave "
@@ -1679,7 +1683,7 @@ class Run:
         else:
             probs = M.check_concat_ragged(a.m, b.m, N, key_order=not pending("concat-ragged-key-order"))
             if probs:
-                fp = "C05-ORDER@pending:concat-ragged-key-order" if probs[0][0] == "C05-ORDER:key" else None
+                fp = "C05-ORDER:concat-ragged-key-order" if probs[0][0] == "C05-ORDER:key" else None
                 self.flag(probs[0][0].split(":")[0], f"concat_ragged({M.show(a.m)}, {M.show(b.m)}, {align}) gave "
                                                      f"{M.show(N)}: {probs[0][1]}", fp)
         if any(r is self.pool[x].c for x in idx):
@@ -1719,7 +1723,7 @@ class Run:
         r = lv.c.transform_qubits(arg)
         if not pending("transform-qubits-drops-tags") and tuple(r.tags) != tuple(lv.c.tags):
             self.flag("C05-PLACE", f"transform_qubits on a circuit with tags {lv.c.tags} returned tags {r.tags}",
-                      "C05-PLACE@pending:transform-qubits-drops-tags")
+                      "C05-PLACE:transform-qubits-drops-tags")
         self.result_exact(r, exp, [t], "transform_qubits")
 
     def call_with_tags(self) -> None:
